@@ -51,6 +51,10 @@ def run(rep, tier):
     from . import c16
     rep.rule("R0", "premise: one psi sign/scale convention across the profile family (C16.R2)")
     c16.r2(prog, Premise(rep, "R0", "C16"))
+    # a g-file equilibrium: the (R, Z) grid psi is attached to is the one the file format defines
+    rep.rule("R7", "premise: read_geqdsk puts the file's psi on the grid the format defines (rleft..rleft+rdim, zmid-zdim/2..zmid+zdim/2, nx x ny points) (C17.R4)")
+    from . import c17
+    c17.r4(prog, Premise(rep, "R7", "C17"))
     rep.undecided("interpolation accuracy of psi, fpol and pressure splines")
     return __doc__
 
